@@ -145,7 +145,7 @@ def _replay_universes(rep, cars, uni):
 
 # ------------------------------------------------------------------ seeded-random cases (I->S)
 _POOL = ([34, 39, 92] * 6 + [10, 32, 9, 97, 98, 122, 48, 95, 46] * 2 +
-         [0xE9, 0x3A9, 0x4E2D, 0x1F600, 0xA0, 0x2028, 0x7F, 0x1, 0x10FFFF, 0xFF3C, 0x2019, 0x201C])
+         [0xE9, 0x3A9, 0x4E2D, 0x1F600, 0xA0, 0x2028, 0x7F, 0x1, 0x10FFFF, 0xFF3C, 0x2019, 0x201C, 13, 0, 0x85])
 
 
 def _rand_string(rng, maxlen, unicode_heavy):
